@@ -48,7 +48,11 @@ class Call:
         if dloc is not None:
             if defn is not None:
                 st.defs[dloc] = defn
-            for sub, l in extras:
+            for ex in extras:
+                if ex[0] == "reloc":
+                    st.relocate_guards(ex[1], (dloc[0], dloc[1] + ex[2]))
+                    continue
+                sub, l = ex
                 leaf = st.leaf((dloc[0], dloc[1] + sub))
                 if leaf is not None and not leaf.is_const() and l is not None and not l.is_const():
                     st.cons.add_eq(LinForm.var((dloc[0], dloc[1] + sub)) - l)
@@ -225,6 +229,7 @@ class Engine(Interp):
             for i, (v, loc) in enumerate(vals):
                 if loc is None:
                     continue
+                extras.append(("reloc", loc, pre(i)))
                 if isinstance(v, Int):
                     l = self.lin_of(st, v, loc)
                     if l is not None:
@@ -256,7 +261,11 @@ class Engine(Interp):
                 if defn is not None and "elem" not in dloc[1]:
                     if not any(v[0] == dloc[0] and v[1][:len(dloc[1])] == dloc[1] for v in _defvars(defn)):
                         s.defs[dloc] = defn
-                for sub, l in extras:
+                for ex in extras:
+                    if ex[0] == "reloc":
+                        s.relocate_guards(ex[1], (dloc[0], dloc[1] + ex[2]))
+                        continue
+                    sub, l = ex
                     if l is None or l.is_const():
                         continue
                     tv = (dloc[0], dloc[1] + sub)
@@ -325,7 +334,7 @@ class Engine(Interp):
             v, loc = self.eval_operand(st, frame, term["cond"])
             exp = 1 if term["expected"] else 0
             ok = isinstance(v, Int) and v.is_const() and v.lo == exp
-            desc = "%s(%s)" % (term["kind"], ", ".join(mirlib.operand_str(o, frame.body) for o in term["ops"]))
+            desc = "%s(%s)" % (term["kind"], ", ".join(_stable_operand(o, frame.body) for o in term["ops"]))
             self.oblige(frame, bb, "ASSERT", desc, ok, st, mirlib.Span(term["span"]))
             s2 = st
             try:
@@ -450,8 +459,7 @@ class Engine(Interp):
         for s in exits:
             rv = s.cells.get(nf.cell(0), UNIT)
             rloc = (nf.cell(0), ())
-            self.write_place(s, frame, c.term["dest"], rv, self.lin_of(s, rv, rloc) if isinstance(rv, Int) else None,
-                             rloc if not isinstance(rv, Int) else None)
+            self.write_place(s, frame, c.term["dest"], rv, self.lin_of(s, rv, rloc) if isinstance(rv, Int) else None, rloc)
             self.kill_frame(s, nf)
             outs.append(s)
         c.results.extend(outs)
@@ -469,6 +477,7 @@ class Engine(Interp):
         for k in dead:
             del st.defs[k]
         for k in cells:
+            st.kill_guards(k, (), True)
             del st.cells[k]
 
     def recursive_call(self, c, body):
@@ -691,6 +700,29 @@ class Engine(Interp):
                     st_in.cells[k] = val
             return v
         return outs
+
+
+def _stable_operand(o, body):
+    """operand rendering for obligation keys: source names and constants only, no MIR temp numbers"""
+    k = o["k"]
+    if k in ("copy", "move"):
+        p = o["place"]
+        nm = body.local_name(p["local"])
+        base = nm if nm else "_"
+        for e in p["proj"]:
+            if e["k"] == "field":
+                base += ".%s" % (e.get("name") if e.get("name") is not None else e["i"])
+            elif e["k"] == "deref":
+                base = "*" + base
+            elif e["k"] in ("index", "cindex"):
+                base += "[..]"
+        return base
+    if k == "const":
+        if "v" in o:
+            return str(o["v"])
+        if "cparam" in o:
+            return o["cparam"]
+    return "_"
 
 
 def _operands(rv):
